@@ -26,7 +26,7 @@ def body_lines(rng, c, n, allow_blank=True, allow_lead_tab=True):
         if r < 0.12 and allow_blank:
             out.append("")
         elif r < 0.18 and allow_blank:
-            out.append(rng.choice(["   ", " ", "\t", "  \t "]))            # whitespace-only line
+            out.append(rng.choice(["   ", " ", "\t", "  \t ", "\xa0", "\u2003", "\u3000\u3000", "\u202f", "\xa0 \xa0"]))            # whitespace-only line (ASCII or not: Markdown's blank line is spaces and tabs only)
         elif r < 0.3:
             out.append(c * rng.randint(1, n - 1) + rng.choice(["", " x", ""]))   # fence-like run, too short to close
         elif r < 0.4:
@@ -126,11 +126,25 @@ def span_case(rng):
         x = x.replace("\n", " ")     # a line starting (after <= 3 spaces) with a run of 3+ backticks would open a fenced block
     if re.search(r"(?<!`)`{%d}(?!`)" % n, x):
         x = x.replace("`", "'")
-    doc = "a " + "`" * n + x + "`" * n + " b\n"
+    span = "a " + "`" * n + x + "`" * n + " b"
+    where = rng.choice(["para", "para", "heading", "emphasis", "link", "quote", "item", "cell", "cell", "defn"])
+    if "\n" in x or "|" in x.replace("\\|", ""):
+        where = "para" if "\n" in x else rng.choice(["para", "heading", "quote", "item"])
+    if where == "emphasis" and ("*" in x or "_" in x):
+        where = "para"
+    if where == "link" and ("[" in x or "]" in x):
+        where = "para"
+    if where == "cell" and rng.random() < 0.5 and "`" not in x:
+        # an escaped pipe does not end the cell; inside the code span it is still a backslash and a pipe
+        x = x + " \\| " + rng.choice(["q", "r s", ""])
+        x = x.rstrip() or "q"
+        span = "a " + "`" * n + x + "`" * n + " b"
+    doc = {"para": span, "heading": "## " + span, "emphasis": "*" + span + "*", "link": "[" + span + "](/u)", "quote": "> " + span, "item": "- x\n- " + span,
+           "cell": "| h | k |\n|---|---|\n| " + span + " | z |", "defn": "term\n: " + span}[where] + "\n"
     e = x.replace("\n", " ")
     if e.strip() and e.startswith(" ") and e.endswith(" "):
         e = e[1:-1]
-    return {"kind": "span", "container": "top", "doc": doc, "expected": e}
+    return {"kind": "span", "container": where, "doc": doc, "expected": e}
 
 
 def classify(case, got):
@@ -148,7 +162,7 @@ def classify(case, got):
     for a, b in zip(el, gl):
         if a == b:
             continue
-        if a.strip() == "" and b == "" and case["container"] in ("bullet", "ordered", "quote-in-list"):
+        if a.strip(" \t\x0b\x0c") == "" and b == "" and case["container"] in ("bullet", "ordered", "quote-in-list"):     # the characters of mistune's BLANK_LINE (space, tab, VT, FF): the known deviation is about those lines only
             kinds.add("blank-emptied")
         elif "\t" in a[: len(a) - len(a.lstrip(" \t"))] and a.lstrip(" \t") == b.lstrip(" ") and b[: len(b) - len(b.lstrip(" "))].strip(" ") == "":
             kinds.add("tab-expanded")
@@ -161,19 +175,27 @@ def oracle(ctx, n):
     import mistune
     ast = mistune.create_markdown(renderer=None)
     hm = mistune.create_markdown(escape=True)
+    ast_p = mistune.create_markdown(renderer=None, plugins=["table", "def_list", "strikethrough", "footnotes"])
+    hm_p = mistune.create_markdown(escape=True, plugins=["table", "def_list", "strikethrough", "footnotes"])
+    def walk(ts):
+        for t in ts:
+            yield t
+            if "children" in t:
+                yield from walk(t["children"])
     cnt = 0
     for _ in range(n):
         r = ctx.rng.random()
         case = fenced_case(ctx.rng) if r < 0.6 else indented_case(ctx.rng) if r < 0.8 else span_case(ctx.rng)
         cnt += 1
+        plug = case["kind"] == "span" and case["container"] in ("cell", "defn")
         try:
-            toks = ast(case["doc"])
-            out = hm(case["doc"])
+            toks = (ast_p if plug else ast)(case["doc"])
+            out = (hm_p if plug else hm)(case["doc"])
         except Exception as e:
             ctx.fail("exception", "conversion raised %r" % e, case)
             continue
         if case["kind"] == "span":
-            spans = [t for p in toks if p["type"] == "paragraph" for t in p["children"] if t["type"] == "codespan"]
+            spans = [t for t in walk(toks) if t["type"] == "codespan"]
             if len(spans) != 1:
                 ctx.fail("span:not-recognised", "code span not recognised: %r" % case["doc"], case); continue
             got = spans[0]["raw"]
